@@ -40,9 +40,11 @@ func (s *c13Sender) RequestBlock(_ context.Context, h hotstuff.Hash) (*hotstuff.
 	return b, ok
 }
 
-type c13NoRule struct{}
+// c13Rule: the commit rule is the outside world here; it answers with the block the scenario wants
+// committed when TryCommit(block) asks (nil = nothing to commit yet).
+type c13Rule struct{ next *hotstuff.Block }
 
-func (c13NoRule) CommitRule(*hotstuff.Block) *hotstuff.Block { return nil }
+func (r *c13Rule) CommitRule(*hotstuff.Block) *hotstuff.Block { return r.next }
 
 var c13TS = time.Date(2025, 2, 2, 0, 0, 0, 0, time.UTC)
 
@@ -108,215 +110,332 @@ func (c *c13Cm) nms(bs []*hotstuff.Block) string {
 	return "[" + strings.Join(ss, " ") + "]"
 }
 
-// one program: stores (any order, equivocating blocks before and after the chain), then commits
-func c13CommitProgram(v *verifOut, s *verifStream, logger logging.Logger, cfg *core.RuntimeConfig, base crypto.Base, seed int64, scripted int) {
-	rng := &c13Rng{uint64(seed)*2862933555777941757 + 3037000493}
-	c := &c13Cm{intern: map[hotstuff.Hash]uint64{}}
-	snd := &c13Sender{tbl: map[hotstuff.Hash]*hotstuff.Block{}}
-	el := eventloop.New(logger, 4096)
-	chain := blockchain.New(el, logger, snd)
-	auth := cert.NewAuthority(cfg, chain, base)
-	vs, err := protocol.NewViewStates(chain, auth)
+// c13Run: one fresh replica-side stack (EventLoop, Blockchain, ViewStates, Committer) and the
+// reference bookkeeping of the harness.
+type c13Run struct {
+	*c13Cm
+	v                 *verifOut
+	kind              string
+	key               string
+	snd               *c13Sender
+	el                *eventloop.EventLoop
+	chain             *blockchain.Blockchain
+	vs                *protocol.ViewStates
+	cm                *Committer
+	rule              *c13Rule
+	byBatch           map[*clientpb.Batch]*hotstuff.Block
+	present           map[hotstuff.Hash]*hotstuff.Block
+	evCommit, evAbort []*hotstuff.Block
+
+	steps []string
+	desc  []string
+	fails []verifOracleFail
+	oks   int
+
+	executedAt                map[hotstuff.Hash]int // commit number that executed the block
+	abortedAt                 map[hotstuff.Hash]int // commit number that aborted it
+	commits                   int
+	increasing                bool
+	allStored                 bool // every commit target was in the store when its commit started
+	lastHeight                uint64
+	nAborted, nExecuted, nErr int
+}
+
+func c13NewRun(v *verifOut, logger logging.Logger, cfg *core.RuntimeConfig, base crypto.Base, kind, key string) *c13Run {
+	r := &c13Run{c13Cm: &c13Cm{intern: map[hotstuff.Hash]uint64{}}, v: v, kind: kind, key: key,
+		byBatch: map[*clientpb.Batch]*hotstuff.Block{}, present: map[hotstuff.Hash]*hotstuff.Block{},
+		executedAt: map[hotstuff.Hash]int{}, abortedAt: map[hotstuff.Hash]int{}, increasing: true, allStored: true}
+	r.snd = &c13Sender{tbl: map[hotstuff.Hash]*hotstuff.Block{}}
+	r.el = eventloop.New(logger, 4096)
+	r.chain = blockchain.New(r.el, logger, r.snd)
+	auth := cert.NewAuthority(cfg, r.chain, base)
+	vs, err := protocol.NewViewStates(r.chain, auth)
 	if err != nil {
 		v.Oracle(false, "harness:viewstates", err.Error(), nil)
-		return
+		return nil
 	}
-	cm := NewCommitter(el, logger, chain, vs, c13NoRule{})
-	var committedLog, aborted []*hotstuff.Block
-	byBatch := map[*clientpb.Batch]*hotstuff.Block{}
-	var evCommit, evAbort []*hotstuff.Block
-	eventloop.Register(el, func(e hotstuff.CommitEvent) { evCommit = append(evCommit, e.Block) })
-	eventloop.Register(el, func(e clientpb.AbortEvent) { evAbort = append(evAbort, byBatch[e.Batch]) })
+	r.vs = vs
+	r.rule = &c13Rule{}
+	r.cm = NewCommitter(r.el, logger, r.chain, vs, r.rule)
+	eventloop.Register(r.el, func(e hotstuff.CommitEvent) { r.evCommit = append(r.evCommit, e.Block) })
+	eventloop.Register(r.el, func(e clientpb.AbortEvent) { r.evAbort = append(r.evAbort, r.byBatch[e.Batch]) })
 	g := hotstuff.GetGenesis()
-	c.id(hotstuff.Hash{})
-	c.id(g.Hash())
-	present := map[hotstuff.Hash]*hotstuff.Block{g.Hash(): g}
+	r.id(hotstuff.Hash{})
+	r.id(g.Hash())
+	r.present[g.Hash()] = g
+	return r
+}
 
-	var uni []*hotstuff.Block
-	uni = append(uni, g)
-	var script [][2]int // (kind, block index): 0 store, 1 commit
-	if scripted == 1 {
-		// DESIGN.md §8.6: a <- b <- cc committed in one go; e equivocates in view 2, stored last
-		a := c13Block(g.Hash(), 1, 1)
-		b := c13Block(a.Hash(), 2, 2)
-		cc := c13Block(b.Hash(), 3, 3)
-		e := c13Block(g.Hash(), 2, 4)
-		uni = append(uni, a, b, cc, e)
-		script = [][2]int{{0, 1}, {0, 2}, {0, 3}, {0, 4}, {1, 3}}
-	} else {
-		nb := 3 + rng.Intn(7)
-		for i := 1; i <= nb; i++ {
-			if rng.Intn(12) == 0 {
-				uni = append(uni, c13Block(c13Missing(i), 1+uint64(rng.Intn(5)), i))
-				continue
-			}
-			p := uni[rng.Intn(len(uni))]
-			if rng.Intn(2) == 0 {
-				p = uni[len(uni)-1]
-			}
-			uni = append(uni, c13Block(p.Hash(), uint64(p.View())+1+uint64(rng.Intn(2))*uint64(rng.Intn(3)), i))
-		}
+// know interns the blocks of the scenario in a fixed order and remembers their batches.
+func (r *c13Run) know(bs ...*hotstuff.Block) {
+	for _, b := range bs {
+		r.byBatch[b.Commands()] = b
+		r.id(b.Hash())
+		r.id(b.Parent())
 	}
-	for _, b := range uni {
-		byBatch[b.Commands()] = b
-		c.id(b.Hash()) // intern everything up front, in a fixed order
-		c.id(b.Parent())
+}
+
+func (r *c13Run) fail(fp, what string) {
+	r.fails = append(r.fails, verifOracleFail{Fingerprint: fp, What: what})
+}
+
+func (r *c13Run) peek() string {
+	return fmt.Sprintf("(Some %d, Some %s)", uint64(r.chain.PruneHeight()), r.gB(r.vs.CommittedBlock()))
+}
+
+func (r *c13Run) emitStore(b *hotstuff.Block) {
+	r.steps = append(r.steps, "((OStore "+r.gB(b)+"), RUnit, "+r.peek()+")")
+	r.present[b.Hash()] = b
+}
+
+func (r *c13Run) Store(b *hotstuff.Block) {
+	r.chain.Store(b)
+	r.emitStore(b)
+	r.desc = append(r.desc, "Store "+r.nm(b))
+}
+
+// Commit commits target; blocks in fetchable can be fetched from peers during this call only.
+// via != nil: through TryCommit(via) with the commit rule answering target (TryCommit stores via
+// first); via == nil: Committer.commit(target) directly.
+func (r *c13Run) Commit(via, target *hotstuff.Block, fetchable []*hotstuff.Block) {
+	r.snd.tbl = map[hotstuff.Hash]*hotstuff.Block{}
+	var ts []string
+	for _, x := range fetchable {
+		r.snd.tbl[x.Hash()] = x
+		ts = append(ts, fmt.Sprintf("(%d, [%s])", r.id(x.Hash()), r.gB(x)))
 	}
-	var ops, obs, desc []string
-	var fails []verifOracleFail
-	oks := 0
-	abortedCount := map[hotstuff.Hash]int{}
-	everCommitted := map[hotstuff.Hash]bool{g.Hash(): true}
-	increasing := true
-	lastHeight := uint64(0)
-	step := func(kind int, b *hotstuff.Block) {
-		if kind == 0 {
-			chain.Store(b)
-			present[b.Hash()] = b
-			ops = append(ops, "(OStore "+c.gB(b)+")")
-			obs = append(obs, "RUnit")
-			desc = append(desc, "Store "+c.nm(b))
-			return
-		}
-		// commit b; some missing ancestors may be fetchable
-		snd.tbl = map[hotstuff.Hash]*hotstuff.Block{}
-		var ts []string
-		for _, x := range uni {
-			if _, ok := present[x.Hash()]; !ok && rng.Intn(2) == 0 {
-				snd.tbl[x.Hash()] = x
+	phBefore, cbBefore := r.chain.PruneHeight(), r.vs.CommittedBlock()
+	r.evCommit, r.evAbort = nil, nil
+	g0 := len(r.snd.given)
+	var cerr error
+	panicked := false
+	storedVia := false
+	func() {
+		defer func() {
+			if p := recover(); p != nil {
+				panicked = true
+				r.fail("committer:panic", fmt.Sprint(p))
 			}
-		}
-		for _, h := range append([]hotstuff.Hash(nil), c.order...) {
-			if x, ok := snd.tbl[h]; ok {
-				ts = append(ts, fmt.Sprintf("(%d, [%s])", c.id(h), c.gB(x)))
-			}
-		}
-		evCommit, evAbort = nil, nil
-		g0 := len(snd.given)
-		var cerr error
-		panicked := false
-		func() {
-			defer func() {
-				if r := recover(); r != nil {
-					panicked = true
-					fails = append(fails, verifOracleFail{Fingerprint: "committer:panic", What: fmt.Sprint(r)})
-				}
-			}()
-			cerr = cm.commit(b)
 		}()
-		for el.Tick(context.Background()) {
+		if via != nil {
+			r.rule.next = target
+			storedVia = true
+			cerr = r.cm.TryCommit(via)
+		} else {
+			cerr = r.cm.commit(target)
 		}
-		for _, x := range snd.given[g0:] {
-			present[x.Hash()] = x
-		}
-		op := fmt.Sprintf("(OCommit %s %s)", c.gB(b), gList(ts))
-		var o string
-		switch {
-		case panicked:
-			o = "RPanic"
-		case cerr != nil:
-			o = "(RCommit CErr)"
-		default:
-			o = fmt.Sprintf("(RCommit (CDone %s %s))", c.gBs(evCommit), c.gBs(evAbort))
-		}
-		ops = append(ops, op)
-		obs = append(obs, o)
-		desc = append(desc, fmt.Sprintf("commit %s (fetchable %d) -> err=%v executed %s aborted %s", c.nm(b), len(snd.tbl), cerr != nil, c.nms(evCommit), c.nms(evAbort)))
-		if cerr != nil || panicked {
-			if len(evCommit)+len(evAbort) > 0 {
-				fails = append(fails, verifOracleFail{Fingerprint: "committer:events-on-error", What: "commit returned an error after emitting events"})
-			}
-			return
-		}
-		if uint64(b.View()) <= lastHeight && lastHeight != 0 {
-			increasing = false
-		}
-		lastHeight = uint64(b.View())
-		for _, x := range evCommit {
-			everCommitted[x.Hash()] = true
-			committedLog = append(committedLog, x)
-		}
-		// the committed chain: everything reachable from the committed block over present parents
-		on := map[hotstuff.Hash]bool{}
-		for cur, n := vs.CommittedBlock(), 0; cur != nil && n < 1000; n++ {
-			on[cur.Hash()] = true
-			p, ok := present[cur.Parent()]
-			if !ok {
-				break
-			}
-			cur = p
-		}
+	}()
+	if storedVia {
+		// TryCommit = Store(via) followed by commit(rule's answer)
+		r.steps = append(r.steps, "((OStore "+r.gB(via)+"), RUnit, (None, None))")
+		r.present[via.Hash()] = via
+	}
+	if _, ok := r.present[target.Hash()]; !ok {
+		r.allStored = false
+	}
+	for r.el.Tick(context.Background()) {
+	}
+	for _, x := range r.snd.given[g0:] {
+		r.present[x.Hash()] = x
+	}
+	r.snd.tbl = map[hotstuff.Hash]*hotstuff.Block{}
+	var o string
+	switch {
+	case panicked:
+		o = "RPanic"
+	case cerr != nil:
+		o = "(RCommit CErr)"
+	default:
+		o = fmt.Sprintf("(RCommit (CDone %s %s))", r.gBs(r.evCommit), r.gBs(r.evAbort))
+	}
+	r.steps = append(r.steps, fmt.Sprintf("((OCommit %s %s), %s, %s)", r.gB(target), gList(ts), o, r.peek()))
+	how := "commit"
+	if via != nil {
+		how = "TryCommit(" + r.nm(via) + ") -> commit"
+	}
+	r.desc = append(r.desc, fmt.Sprintf("%s %s (peers have %s) -> err=%v executed %s aborted %s, pruneHeight %d->%d", how, r.nm(target), r.nms(fetchable),
+		cerr != nil, r.nms(r.evCommit), r.nms(r.evAbort), uint64(phBefore), uint64(r.chain.PruneHeight())))
+	r.commits++
+	if cerr != nil || panicked {
+		r.nErr++
 		good := true
-		for _, x := range evAbort {
-			if x == nil {
-				fails = append(fails, verifOracleFail{Fingerprint: "committer:abort-unknown-batch", What: "AbortEvent for a batch of no known block"})
-				good = false
-				continue
-			}
-			aborted = append(aborted, x)
-			abortedCount[x.Hash()]++
-			if on[x.Hash()] {
-				fails = append(fails, verifOracleFail{Fingerprint: "committer:aborted-committed-block",
-					What: fmt.Sprintf("commit of %s: AbortEvent for %s, a block on the committed chain (CommitEvent emitted for it: %v)", c.nm(b), c.nm(x), everCommitted[x.Hash()])})
-				good = false
-			}
-			if abortedCount[x.Hash()] > 1 && increasing {
-				fails = append(fails, verifOracleFail{Fingerprint: "committer:aborted-twice", What: fmt.Sprintf("second AbortEvent for %s", c.nm(x))})
-				good = false
-			}
+		if len(r.evCommit)+len(r.evAbort) > 0 {
+			r.fail("committer:events-on-error", fmt.Sprintf("commit of %s returned an error but emitted %d commit and %d abort events", r.nm(target), len(r.evCommit), len(r.evAbort)))
+			good = false
 		}
+		// (pruneHeight and the committed block after a failing commit are compared with the model
+		// step by step in the kernel; the property text itself only speaks about what is reported)
+		_, _ = phBefore, cbBefore
 		if good {
-			oks++
+			r.oks++
 		}
+		// the abort events of a failing commit still count for the cross-commit oracles below
 	}
-	if scripted != 0 {
-		for _, st := range script {
-			step(st[0], uni[st[1]])
+	if cerr == nil && !panicked {
+		if uint64(target.View()) <= r.lastHeight && r.lastHeight != 0 {
+			r.increasing = false
 		}
-	} else {
-		height := uint64(0)
-		nops := 5 + rng.Intn(12)
-		for i := 0; i < nops; i++ {
-			b := uni[rng.Intn(len(uni))]
-			if rng.Intn(100) < 65 {
-				step(0, b)
-				continue
-			}
-			if rng.Intn(10) != 0 && uint64(b.View()) <= height {
-				continue
-			}
-			if uint64(b.View()) > height {
-				height = uint64(b.View())
-			}
-			if _, ok := present[b.Hash()]; !ok && rng.Intn(3) != 0 {
-				step(0, b) // TryCommit stores the block first
-			}
-			step(1, b)
-		}
+		r.lastHeight = uint64(target.View())
 	}
+	good := true
+	for _, x := range r.evCommit {
+		if n, was := r.abortedAt[x.Hash()]; was {
+			r.fail("committer:executed-after-abort", fmt.Sprintf("%s was reported as abandoned by commit no. %d and is executed by commit no. %d", r.nm(x), n, r.commits))
+			good = false
+		}
+		r.executedAt[x.Hash()] = r.commits
+		r.nExecuted++
+	}
+	// the committed chain: everything reachable from the committed block over present parents
+	on := map[hotstuff.Hash]bool{}
+	for cur, n := r.vs.CommittedBlock(), 0; cur != nil && n < 1000; n++ {
+		on[cur.Hash()] = true
+		p, ok := r.present[cur.Parent()]
+		if !ok {
+			break
+		}
+		cur = p
+	}
+	for _, x := range r.evAbort {
+		if x == nil {
+			r.fail("committer:abort-unknown-batch", "AbortEvent for a batch of no known block")
+			good = false
+			continue
+		}
+		r.nAborted++
+		if on[x.Hash()] {
+			r.fail("committer:aborted-committed-block", fmt.Sprintf("commit of %s: AbortEvent for %s, a block on the committed chain", r.nm(target), r.nm(x)))
+			good = false
+		}
+		if n, was := r.executedAt[x.Hash()]; was && r.allStored {
+			r.fail("committer:aborted-after-executed", fmt.Sprintf("%s was executed by commit no. %d and is reported as abandoned by commit no. %d", r.nm(x), n, r.commits))
+			good = false
+		}
+		if n, was := r.abortedAt[x.Hash()]; was && r.increasing {
+			r.fail("committer:aborted-twice", fmt.Sprintf("second AbortEvent for %s (first by commit no. %d)", r.nm(x), n))
+			good = false
+		}
+		r.abortedAt[x.Hash()] = r.commits
+	}
+	if good {
+		r.oks++
+	}
+}
+
+func (r *c13Run) finish(s *verifStream) {
 	var bs []string
-	for _, h := range append([]hotstuff.Hash(nil), c.order...) {
-		if b, ok := chain.LocalGet(h); ok {
-			bs = append(bs, fmt.Sprintf("(%d, %s)", c.id(h), c.gB(b)))
+	for _, h := range append([]hotstuff.Hash(nil), r.order...) {
+		if b, ok := r.chain.LocalGet(h); ok {
+			bs = append(bs, fmt.Sprintf("(%d, %s)", r.id(h), r.gB(b)))
 		}
 	}
-	term := fmt.Sprintf("(C false %s\n %s\n %s\n (D %s None %d (Some %s)))", c.gB(g), gList(ops), gList(obs), gList(bs),
-		uint64(chain.PruneHeight()), c.gB(vs.CommittedBlock()))
-	meta := map[string]any{"kind": "commit", "seed": seed, "ops": desc}
-	if len(fails) > 0 {
-		meta["fingerprint"] = fails[0].Fingerprint
+	g := hotstuff.GetGenesis()
+	term := fmt.Sprintf("(PC false %s\n %s\n (D %s None %d (Some %s)))", r.gB(g), gList(r.steps), gList(bs),
+		uint64(r.chain.PruneHeight()), r.gB(r.vs.CommittedBlock()))
+	meta := map[string]any{"kind": r.kind, "case": r.key, "ops": r.desc}
+	if len(r.fails) > 0 {
+		meta["fingerprint"] = r.fails[0].Fingerprint
 	}
-	v.Case(s, term, meta)
-	v.Seen(fmt.Sprintf("commit seed=%d scripted=%d", seed, scripted), true, map[string]any{"kind": "commit", "ops": desc})
-	v.Count("cases_commit")
-	v.CountN("abort_events", len(aborted))
-	v.CountN("commit_events", len(committedLog))
-	for i := 0; i < oks; i++ {
-		v.Oracle(true, "", "", nil)
+	r.v.Case(s, term, meta)
+	r.v.Seen(r.kind+" "+r.key, true, map[string]any{"kind": r.kind, "ops": r.desc})
+	r.v.Count("cases_" + r.kind)
+	r.v.CountN("abort_events", r.nAborted)
+	r.v.CountN("commit_events", r.nExecuted)
+	r.v.CountN("failed_commits", r.nErr)
+	for i := 0; i < r.oks; i++ {
+		r.v.Oracle(true, "", "", nil)
 	}
-	for _, f := range fails {
-		v.Oracle(false, f.Fingerprint, f.What, map[string]any{"kind": "commit", "seed": seed, "ops": desc})
+	for _, f := range r.fails {
+		r.v.Oracle(false, f.Fingerprint, f.What, map[string]any{"kind": r.kind, "case": r.key, "ops": r.desc})
 	}
+}
+
+// c13RandomCommits: a random monotone universe (forks, equivocation, gaps); stores in any order,
+// commits through TryCommit or directly, with a random set of missing blocks fetchable each time.
+func c13RandomCommits(r *c13Run, seed int64) {
+	rng := &c13Rng{uint64(seed)*2862933555777941757 + 3037000493}
+	uni := []*hotstuff.Block{hotstuff.GetGenesis()}
+	nb := 3 + rng.Intn(7)
+	for i := 1; i <= nb; i++ {
+		if rng.Intn(12) == 0 {
+			uni = append(uni, c13Block(c13Missing(i), 1+uint64(rng.Intn(5)), i))
+			continue
+		}
+		p := uni[rng.Intn(len(uni))]
+		if rng.Intn(2) == 0 {
+			p = uni[len(uni)-1]
+		}
+		uni = append(uni, c13Block(p.Hash(), uint64(p.View())+1+uint64(rng.Intn(2))*uint64(rng.Intn(3)), i))
+	}
+	r.know(uni...)
+	height := uint64(0)
+	nops := 5 + rng.Intn(12)
+	for i := 0; i < nops; i++ {
+		b := uni[rng.Intn(len(uni))]
+		if rng.Intn(100) < 60 {
+			r.Store(b)
+			continue
+		}
+		if rng.Intn(10) != 0 && uint64(b.View()) <= height {
+			continue
+		}
+		if uint64(b.View()) > height {
+			height = uint64(b.View())
+		}
+		var fetchable []*hotstuff.Block
+		for _, x := range uni {
+			if _, ok := r.present[x.Hash()]; !ok && rng.Intn(2) == 0 {
+				fetchable = append(fetchable, x)
+			}
+		}
+		switch rng.Intn(4) {
+		case 0: // commit directly, the block possibly not stored
+			r.Commit(nil, b, fetchable)
+		case 1: // a younger block arrives and the rule names b
+			r.Commit(uni[rng.Intn(len(uni))], b, fetchable)
+		default:
+			r.Commit(b, b, fetchable)
+		}
+	}
+}
+
+// c13DepthCommits: a chain of depth d with an equivocating side block; some ancestors are missing
+// locally; the first commit attempt finds only some of them at the peers (it fails at the first
+// depth nobody can serve), later attempts find more.
+func c13DepthCommits(r *c13Run, d, local, avail1, avail2 int, sideLate bool) {
+	chain := []*hotstuff.Block{hotstuff.GetGenesis()}
+	for i := 1; i <= d+1; i++ {
+		chain = append(chain, c13Block(chain[i-1].Hash(), uint64(2*i-1), i))
+	}
+	side := c13Block(chain[1].Hash(), uint64(chain[2].View()), 40) // equivocates with chain[2]
+	side2 := c13Block(side.Hash(), uint64(chain[2].View())+1, 41)
+	r.know(chain[1:]...)
+	r.know(side, side2)
+	if !sideLate {
+		r.Store(side)
+	}
+	for i := 1; i < d; i++ {
+		if local&(1<<(i-1)) != 0 {
+			r.Store(chain[i])
+		}
+	}
+	if sideLate {
+		r.Store(side)
+	}
+	r.Store(side2)
+	pickAvail := func(mask int) []*hotstuff.Block {
+		var out []*hotstuff.Block
+		for i := 1; i < d; i++ {
+			if _, ok := r.present[chain[i].Hash()]; !ok && mask&(1<<(i-1)) != 0 {
+				out = append(out, chain[i])
+			}
+		}
+		return out
+	}
+	r.Commit(chain[d], chain[d], pickAvail(avail1))          // may fail
+	r.Commit(chain[d+1], chain[d], pickAvail(avail1|avail2)) // may still fail
+	r.Commit(chain[d+1], chain[d], pickAvail((1<<(d-1))-1))  // every peer answers now
+	r.Commit(chain[d+1], chain[d+1], nil)                    // one more block, nothing to fetch
 }
 
 func TestVerifC13(t *testing.T) {
@@ -332,11 +451,56 @@ func TestVerifC13(t *testing.T) {
 	if err != nil {
 		t.Fatal(err)
 	}
-	s := v.Stream("commit", "mismatches", 400)
-	c13CommitProgram(v, s, logger, cfg, base, 0, 1)
+	s := v.Stream("commit", "step_mismatches", 400)
+
+	// the lead of DESIGN.md §8.6: a <- b <- cc committed in one go; e equivocates in view 2, stored last
+	if r := c13NewRun(v, logger, cfg, base, "commit", "scripted equivocation-after"); r != nil {
+		g := hotstuff.GetGenesis()
+		a := c13Block(g.Hash(), 1, 1)
+		b := c13Block(a.Hash(), 2, 2)
+		cc := c13Block(b.Hash(), 3, 3)
+		e := c13Block(g.Hash(), 2, 4)
+		r.know(a, b, cc, e)
+		r.Store(a)
+		r.Store(b)
+		r.Store(cc)
+		r.Store(e)
+		r.Commit(nil, cc, nil)
+		r.finish(s)
+	}
+
+	// fetch failing at a chosen depth, then succeeding
+	nd := 0
+	for d := 2; d <= v.Pick(5, 6); d++ {
+		for local := 0; local < 1<<(d-1); local++ {
+			for a1 := 0; a1 < 1<<(d-1); a1++ {
+				if a1&local != 0 {
+					continue
+				}
+				for a2 := 0; a2 < 1<<(d-1); a2++ {
+					if a2&(local|a1) != 0 {
+						continue
+					}
+					for late := 0; late < 2; late++ {
+						nd++
+						key := fmt.Sprintf("depth d=%d local=%d avail1=%d avail2=%d sideLate=%d", d, local, a1, a2, late)
+						if r := c13NewRun(v, logger, cfg, base, "commit-depth", key); r != nil {
+							c13DepthCommits(r, d, local, a1, a2, late == 1)
+							r.finish(s)
+						}
+					}
+				}
+			}
+		}
+	}
+
 	n := v.Pick(2500, 40000)
 	for k := 0; k < n; k++ {
-		c13CommitProgram(v, s, logger, cfg, base, v.rng.Int63(), 0)
+		seed := v.rng.Int63()
+		if r := c13NewRun(v, logger, cfg, base, "commit", fmt.Sprintf("seed=%d", seed)); r != nil {
+			c13RandomCommits(r, seed)
+			r.finish(s)
+		}
 	}
-	v.Close("random store/commit programs on a real Committer (forks, equivocation before and after the committed chain, gaps, fetchable ancestors)")
+	v.Close("store/commit programs on a real Committer through TryCommit and commit (forks, equivocation before and after the committed chain, gaps, ancestors whose fetch fails at a chosen depth and succeeds later)")
 }
